@@ -19,11 +19,13 @@ Standard-library pieces that are NOT modelled and appear as parameters or side c
   * `mime.ParseMediaType` (+ `mergeMultiline`, the non-ASCII strip of `ParseMIMEType`): the oracle
     `ct : Bytes → CT` from the raw bytes of the first `Content-Type` value to the classification
     `load` / `handleEmbeddedParts` branch on.  All theorems hold for every oracle.
-  * `unicode.ToLower` / `unicode.ToUpper` beyond the runes listed at `goCase`: `strings.ToLower` /
-    `strings.ToUpper` on the *requested* field names (arbitrary client strings) are modelled rune by rune
-    (UTF-8 decoding as `utf8.DecodeRune`, ill-formed bytes become U+FFFD as in `strings.Map`) with the case
-    pairs of ASCII plus the four non-ASCII runes whose image is ASCII (U+0130 -> i, U+212A -> k, U+0131 -> I,
-    U+017F -> S); every other non-ASCII rune is treated as caseless (the tie only generates caseless ones).
+  * `unicode.ToUpper` beyond the runes listed at `caseRune`: `strings.ToUpper` on the rendered section name
+    (`renderSection`; it contains the *requested* field names, arbitrary client strings) is modelled rune by
+    rune (UTF-8 decoding as `utf8.DecodeRune`, ill-formed bytes become U+FFFD as in `strings.Map`) with the case
+    pairs of ASCII plus the non-ASCII runes whose image is ASCII (U+0131 -> I, U+017F -> S); every other
+    non-ASCII rune is treated as caseless (the tie only generates caseless ones).
+    Field NAMES are compared in the normal form `foldKey` (fix 047f712): ASCII letters lower-cased, every other
+    byte unchanged — no standard-library case mapping is involved any more.
 Standard-library pieces that ARE modelled: `textproto.CanonicalMIMEHeaderKey` (`canonKey`),
 `bytes.TrimSpace(x) == ""` (`isSpaceOnly`, Unicode White_Space on UTF-8), `bytes.Trim(line, "\r\n") == ""`,
 `bytes.Index` (`indexOf`), `fmt` `%v` of an int (`dec`).
@@ -43,7 +45,11 @@ def upperByte (c : UInt8) : UInt8 := if 97 ≤ c && c ≤ 122 then c - 32 else c
 def lowerBytes (b : Bytes) : Bytes := b.map lowerByte
 def upperBytes (b : Bytes) : Bytes := b.map upperByte
 
-/-! ## strings.ToLower / strings.ToUpper on client strings (requested field names, section names) -/
+/-- `rfc822.foldKey` (header.go, fix 047f712): the normal form header field names are compared in — `A`..`Z`
+    become `a`..`z`, every other byte (punctuation, digits, bytes ≥ 128, ill-formed UTF-8) is left alone -/
+def foldKey (b : Bytes) : Bytes := lowerBytes b
+
+/-! ## strings.ToUpper on client strings (the rendered section name) -/
 
 def isCont (c : UInt8) : Bool := 0x80 ≤ c && c ≤ 0xBF
 
@@ -104,8 +110,6 @@ def goCaseLoop (up : Bool) : Nat → Bytes → Bytes
     | none => [0xEF, 0xBF, 0xBD] ++ goCaseLoop up fuel tl
     | some (r, w) => encodeRune (caseRune up r) ++ goCaseLoop up fuel (tl.drop (w - 1))
 
-/-- `strings.ToLower(s)` -/
-def goLower (b : Bytes) : Bytes := goCaseLoop false b.length b
 /-- `strings.ToUpper(s)` -/
 def goUpper (b : Bytes) : Bytes := goCaseLoop true b.length b
 
@@ -305,11 +309,11 @@ def isSpaceOnly : Bytes → Bool
       | _ => false
     else false
 
-/-- `mapKey`: `strings.ToLower(string(key))`; a key only has bytes 33..126, so ASCII lower-casing -/
-def Entry.mapKey (h : Bytes) (e : Entry) : Bytes := lowerBytes (e.key h)
+/-- `mapKey`: `foldKey(string(key))` -/
+def Entry.mapKey (h : Bytes) (e : Entry) : Bytes := foldKey (e.key h)
 
 /-- the per-entry decision of `Fields` (`negate = false`) and `FieldsNot` (`negate = true`);
-    `want` is the requested list after `strings.ToLower` -/
+    `want` is the requested list after `foldKey` -/
 def selects (negate : Bool) (want : List Bytes) (h : Bytes) (e : Entry) : Bool :=
   if isSpaceOnly (e.all h) then true
   else if !e.hasKey then false
@@ -664,7 +668,7 @@ def fetchBodySection (ct : Bytes → CT) (lit : Bytes) (sec : BodySection) : Exc
         let h := r.headerBytes lit
         match parseEntries h with
         | .error e => .error (.header e)
-        | .ok es => .ok (fieldsOf negate (names.map goLower) h es)      -- wantFields[strings.ToLower(field)]
+        | .ok es => .ok (fieldsOf negate (names.map foldKey) h es)      -- wantFields[foldKey(field)]
 
 def intercalate (sep : Bytes) : List Bytes → Bytes
   | [] => []
